@@ -10,7 +10,7 @@
    [s_step] / [s_run] the same history on the reference. *)
 From Coq Require Import List ZArith NArith Bool Sorted Permutation.
 From GrolModel Require Import Values Cmp Maps.
-From GrolProofs Require Import Cmp_proofs Maps_proofs.
+From GrolProofs Require Import Cmp_proofs Maps_proofs Maps_more.
 Import ListNotations.
 Local Open Scope Z_scope.
 
@@ -145,6 +145,54 @@ Example C11_ex_bindings :
          [l7; firstn 5 l7; [(i 9, i 9)]; firstn 5 l7 ++ [(i 9, i 9)]]].
 Proof. vm_compute. reflexivity. Qed.
 
+(* printed form: SmallMap.Inspect and BigMap.Inspect are one function of the content (for any printers of keys and
+   values), so the printed form of a map equals that of the reference map with the same content, whatever its history *)
+Theorem C11_printed_form_is_content : forall (pk pv : value -> list N) (m : vmap),
+  minspect value value pk pv m = [123%N] ++ join_pairs value value pk pv (elems value value m) true ++ [125%N].
+Proof. exact (minspect_content value value). Qed.
+
+(* lookup after any sequence of writes (a literal with any repeats, Append's loop onto any map): the LAST written pair
+   whose key is order-equivalent to k decides, otherwise what the map held before; two literals whose last writes agree
+   key by key are indistinguishable by lookup *)
+Theorem C11_lookup_last_write_wins :
+  (forall ps (m : vmap), vInv m ->
+     exists m', set_all value value cmp_c (Val m) ps = Val m' /\ vInv m' /\
+       forall k, mget value value cmp_c m' k =
+                 Val (match last_write value value cmp_c ps k with
+                      | Some v => Some v
+                      | None => vs_get (elems value value m) k
+                      end))
+  /\ (forall ps, exists m', mliteral value value cmp_c ps = Val m' /\ vInv m' /\
+         forall k, mget value value cmp_c m' k = Val (last_write value value cmp_c ps k))
+  /\ (forall ps ps', (forall k, last_write value value cmp_c ps k = last_write value value cmp_c ps' k) ->
+         exists m m', mliteral value value cmp_c ps = Val m /\ mliteral value value cmp_c ps' = Val m' /\
+                      forall k, mget value value cmp_c m k = mget value value cmp_c m' k).
+Proof.
+  exact (conj (set_all_lookup value value cmp_c cmp_c_is_weak_order)
+        (conj (mliteral_lookup value value cmp_c cmp_c_is_weak_order)
+              (mliteral_same_writes value value cmp_c cmp_c_is_weak_order))).
+Qed.
+
+(* insertion order, on the implementation: the same pairs (pairwise inequivalent keys) written in any other order give
+   the same content pair for pair AND the same representation (small / large) *)
+Theorem C11_literal_order_irrelevant : forall ps ps',
+  Permutation ps ps' -> keys_distinct value value cmp_c ps ->
+  exists m m', mliteral value value cmp_c ps = Val m /\ mliteral value value cmp_c ps' = Val m' /\
+               elems value value m = elems value value m' /\ is_big value value m = is_big value value m'.
+Proof. exact (mliteral_permutation value value cmp_c cmp_c_is_weak_order). Qed.
+
+Example C11_ex_last_write :
+  let i n := VInt n in
+  let f1 := VFloat (FFin false 1 0) in
+  let ps := [(i 1, i 10); (i 2, i 20); (f1, i 30); (i 3, i 40); (i 2, i 50); (i 4, i 60)] in
+  last_write value value cmp_c ps (i 1) = Some (i 30) /\ last_write value value cmp_c ps f1 = Some (i 30)
+  /\ last_write value value cmp_c ps (i 2) = Some (i 50) /\ last_write value value cmp_c ps (i 9) = None
+  /\ mliteral value value cmp_c ps = Val (Big [(i 1, i 30); (i 2, i 50); (i 3, i 40); (i 4, i 60)])
+  /\ minspect value value (fun _ => [107%N]) (fun _ => [118%N]) (Small [(i 1, i 1); (i 2, i 2)])
+     = [123; 107; 58; 118; 44; 107; 58; 118; 125]%N
+  /\ minspect value value (fun _ => [107%N]) (fun _ => [118%N]) (Big []) = [123; 125]%N.
+Proof. vm_compute. repeat split. Qed.
+
 Print Assumptions C11_invariant.
 Print Assumptions C11_operations_refine.
 Print Assumptions maps_are_finite_maps.
@@ -154,3 +202,6 @@ Print Assumptions binary_search_is_linear.
 Print Assumptions C11_reference_is_finite_map.
 Print Assumptions C11_bindings_are_values.
 Print Assumptions C11_reference_bindings_persist.
+Print Assumptions C11_printed_form_is_content.
+Print Assumptions C11_lookup_last_write_wins.
+Print Assumptions C11_literal_order_irrelevant.
